@@ -274,3 +274,10 @@ package object
 //@ ensures[C10.next.value] selindex() == 1 && selok() ==> result0 == selrecv(1) && result1
 //@ ensures[C10.next.closed] selindex() == 1 && !selok() ==> result0 == nil && !result1
 //@ ensures[C10.next.cancel] selindex() == 0 ==> result0 == nil && !result1
+
+// Iter: the iterator of a channel is a fresh object over the same Go channel, so the per-iteration state that Next
+// stores for Entry (lastReceived, rxCount) is private to one loop (KF-36 fixed).
+//@ func (*Chan).Iter
+//@ props C10
+//@ requires c != nil
+//@ ensures[C10.iter.private] typeof(result) == *Chan && fresh(result) && result.(*Chan).value == c.value && result.(*Chan).lastReceived == nil && result.(*Chan).rxCount == 0
